@@ -103,6 +103,24 @@ def edge_grid():
                                 "headers": [{"text": ["H id", "H c0"]}], "footnote": {"text": ["F note"], "as_table": True},
                                 "source": {"text": ["R src"], "as_table": True}, "kind": "single", "strategy": "plain",
                                 "header_mode": "explicit"})
+    # one text repeated in equal-width cells under different font sizes (smaller occurrence first), so that a line count
+    # remembered per text would be wrong for the larger occurrence
+    import random as _random
+
+    rr = _random.Random(3)
+    for small, large in ((8, 20), (9, 24), (6, 16)):
+        for per_column in (True, False):
+            for nrow in (5, 8):
+                n = 8
+                cw = 6.0 / 3
+                rows = []
+                for i in range(n):
+                    t = sized_text(rr, cw, 1, ["mean", "dose", "visit"][i % 3])
+                    rows.append([f"#{i}#", t, t])
+                sizes = [[9, small, large]] if per_column else [[9, small, small] if i % 2 == 0 else [9, large, large] for i in range(n)]
+                out.append({"df": {"cols": ["id", "c0", "c1"], "rows": rows}, "body": {"text_font_size": sizes},
+                            "page": {"nrow": nrow, "col_width": 6.0}, "headers": [{"text": ["H id", "H c0", "H c1"]}],
+                            "kind": "single", "strategy": "plain", "header_mode": "explicit"})
     return out
 
 
@@ -152,5 +170,5 @@ def signature(spec, result):
 
 def run(ctx):
     common.TIE_EXCUSES["value"] = True
-    return common.run_docprop(ctx, "c03", generate, signature, extra_fn=extra_fn, n_quick=270, n_thorough=4000,
+    return common.run_docprop(ctx, "c03", generate, signature, extra_fn=extra_fn, n_quick=285, n_thorough=4000,
                               shrink_steps=120)
